@@ -2,6 +2,7 @@
 //!
 //! * I/O events: numbered per calling thread after `arm()`; the process can be made to abort right
 //!   before the k-th event (crash-point replay), and the kinds of the events are recorded.
+//! * An optional observer is called before every armed event (it must not perform hooked I/O).
 //! * Faults: the n-th occurrence of a fault site on the calling thread reports an injected failure.
 use std::cell::RefCell;
 
@@ -13,6 +14,7 @@ struct State {
     trace: Vec<&'static str>,
     faults: Vec<(&'static str, u64)>,
     seen: Vec<(&'static str, u64)>,
+    observer: Option<fn(&'static str, u64)>,
 }
 
 thread_local! {
@@ -52,18 +54,28 @@ pub fn set_fault(kind: &'static str, nth: u64) {
     });
 }
 
+/// Call `f(kind, n)` right before the n-th armed I/O event of this thread happens (n is 1-based and
+/// restarts with every `arm`). Used to take copies of small files for power-loss reconstruction.
+pub fn set_observer(f: Option<fn(&'static str, u64)>) {
+    STATE.with(|s| s.borrow_mut().observer = f);
+}
+
 pub(crate) fn io_event(kind: &'static str) {
-    STATE.with(|s| {
+    let notify = STATE.with(|s| {
         let mut s = s.borrow_mut();
         if !s.armed {
-            return;
+            return None;
         }
         s.count += 1;
         if s.abort_before != 0 && s.count == s.abort_before {
             std::process::abort();
         }
         s.trace.push(kind);
+        s.observer.map(|f| (f, s.count))
     });
+    if let Some((f, n)) = notify {
+        f(kind, n);
+    }
 }
 
 pub(crate) fn fault(kind: &'static str) -> bool {
